@@ -1,0 +1,24 @@
+//go:build verif
+
+// Contracts for the verifier in /verif (comment-only file; compiled only with -tags verif).
+
+package helper
+
+// Uint8to16: big-endian pairs of the input, in order; an odd number of bytes is an error; the empty
+// input gives the nil slice.  (properties C06/C07: import of tlsfingerprint.io records)
+//@ func Uint8to16
+//@   property C06 C07
+//@   modifies nothing
+//@   ensures accept: ret1 == nil <==> len(in) % 2 == 0
+//@   ensures nerr: ret1 != nil ==> isnil(ret0)
+//@   ensures len: ret1 == nil ==> len(ret0) == len(in) / 2
+//@   ensures fresh: ret1 == nil && len(in) > 0 ==> fresh(ret0)
+//@   ensures elems: ret1 == nil ==> forall j in 0..len(in)/2: ret0[j] == in[2*j]*256 + in[2*j+1]
+//@   ensures input: unchanged(in)
+//@   loop 0 invariant a: arr(*callarg(ReadUint16, 0, 0)) == arr(in)
+//@   loop 0 invariant o: off(*callarg(ReadUint16, 0, 0)) == off(in) + 2*len(out)
+//@   loop 0 invariant l: len(*callarg(ReadUint16, 0, 0)) == len(in) - 2*len(out)
+//@   loop 0 invariant p: len(*callarg(ReadUint16, 0, 0)) >= 0
+//@   loop 0 invariant len(out) > 0 ==> fresh(out)
+//@   loop 0 invariant len(out) == 0 ==> isnil(out)
+//@   loop 0 invariant forall j in 0..len(out): out[j] == in[2*j]*256 + in[2*j+1]
